@@ -249,6 +249,9 @@ func cmdCheck(args []string) {
 	for k, v := range libUsed {
 		assumptions = append(assumptions, "library model "+k+": "+v)
 	}
+	for k := range eng.usedTypeInv {
+		assumptions = append(assumptions, "object invariant assumed for every reachable object ("+k+")")
+	}
 	for _, a := range eng.assumeSites {
 		assumptions = append(assumptions, "assume statement: "+a)
 	}
